@@ -102,10 +102,10 @@ def c18(tier, seed, replay):
             control = f["kill_before"] == 99
             kinds[x["outcome"] + ("/control" if control else "")] = kinds.get(x["outcome"] + ("/control" if control else ""), 0) + 1
             case = {"P": f["sc"]["P"], "k": f["sc"]["k"], "mode": f["sc"]["mode"], "victim": f["victim"],
-                    "kill_before_message": f["kill_before"], "earlier_calls_on_the_same_solver": f.get("prior", 0)}
+                    "kill_before_message": f["kill_before"], "way_of_dying": f.get("how", "exit3"), "earlier_calls_on_the_same_solver": f.get("prior", 0)}
             if x["outcome"] == "deadline":
                 rep.fail(case, f"parent still blocked {x['wall']}s after worker {f['victim']} of {f['sc']['k']} died before "
-                               f"message {f['kill_before']} ({f['sc']['mode']}, {f.get('prior', 0)} earlier call(s) on the same solver)")
+                               f"message {f['kill_before']} by {f.get('how', 'exit3')} ({f['sc']['mode']}, {f.get('prior', 0)} earlier call(s) on the same solver)")
             elif control and x["outcome"] != "returned":
                 rep.fail(case, f"control run without a crash did not return: {x['outcome']} {x['raised']}")
         if not model_ok:
@@ -117,7 +117,7 @@ def c18(tier, seed, replay):
         rep.cov["outcomes"] = kinds
     rep.add(rule="Fault enumeration on real processes: workers 1..3 (thorough: 1..4) x victim x death point (before the "
                  "first message, between two messages, before a later message / the completion marker; 99 = no crash, "
-                 "control) x enumeration / minimisation x 0..2 earlier undisturbed calls on the same solver object; the victim calls os._exit before queuing the chosen message "
+                 "control) x enumeration / minimisation x 0..2 earlier undisturbed calls on the same solver object; the victim dies before queuing the chosen message (os._exit(3), os._exit(0), SIGKILL, an exception escaping the worker, sys.exit(0) - in rotation) "
                  "(injected through the fork-inherited queue wrapper, no source hook). Allowed outcomes within the "
                  "25 s deadline: returned or raised. Distinct non-trivial = scenarios with a real crash.",
             exhaustive=True)
